@@ -801,6 +801,9 @@ func (runInfo *runInfoStruct) invokeChanExpr(expr *ast.ChanExpr) {
 			Dir:  reflect.SelectRecv,
 			Chan: rhs,
 		}}
+		if verifOn {
+			verifPoll(runInfo, "chanrecv")
+		}
 		chosen, runInfo.rv, ok = reflect.Select(cases)
 		if chosen == 0 {
 			runInfo.err = ErrInterrupt
@@ -841,6 +844,9 @@ func (runInfo *runInfoStruct) invokeChanExpr(expr *ast.ChanExpr) {
 	if !runInfo.options.Debug {
 		// captures panic
 		defer recoverFunc(runInfo)
+	}
+	if verifOn {
+		verifPoll(runInfo, "chansend")
 	}
 	chosen, _, _ = reflect.Select(cases)
 	if chosen == 0 {
